@@ -79,6 +79,13 @@ def naming(run: Run, lay):
         run.evaluations += 1
         run.count("files_roundtrips")
         name = lay[plat]["table"].get("name")
+        names = [name] + (["MrSt"] if name == "MrSteam" else [])  # a Mr.Steam unit reports the short form
+        for name in names:
+            naming_one(run, GeckoConfigFileProtocolHandler, plat, name, c, l)
+
+
+def naming_one(run, GeckoConfigFileProtocolHandler, plat, name, c, l):
+    if True:
         try:
             msg = GeckoConfigFileProtocolHandler.response(name, c, l, parms=(1, 2, b"a", b"b"))
             h = GeckoConfigFileProtocolHandler()
@@ -88,7 +95,7 @@ def naming(run: Run, lay):
             got = (h.plateform_key.lower(), h.config_version, h.log_version)
         except Exception as e:  # the statement implies this is total
             run.violation(f"C18:files:{plat}:raise", f"FILES naming for {name} C{c} S{l} raised {type(e).__name__}", {"exc": describe_exc(e)})
-            continue
+            return
         if got != (plat, c, l):
             run.violation(f"C18:files:{plat}:mismatch", f"FILES naming of ({name},{c},{l}) decodes to {got}, module names need {(plat, c, l)}", {"got": got})
 
